@@ -19,5 +19,5 @@ PROPS = {"C20": dict(
     budget={"quick": 600, "thorough": 2400},
     units=[
         rapid("skylight", "cmd/skylight", "^TestVerifC20Functions$", 400, 2500, files=_FILES),
-        rapid("skylight", "cmd/skylight", "^TestVerifC20HealthBinary$", 40, 300, files=_FILES),
+        rapid("skylight", "cmd/skylight", "^TestVerifC20HealthBinary$", 40, 75, ts=4, files=_FILES),
     ])}
